@@ -245,7 +245,7 @@ package sftp
 //@   property C01, C13
 //@   requires fileOK(f)
 //@   loop 1 invariant 0 <= read && read <= len(b) && fileOK(f)
-//@   assert before call (*File).readChunkAt#1: arg3 == off + int64(read) && len(arg2) >= 1 && len(arg2) <= f.c.maxPacket && arg2 == b[read:read+len(arg2)] && (len(arg2) == f.c.maxPacket || read + len(arg2) == len(b))
+//@   assert before call (*File).readChunkAt#1: arg3 == off + int64(read) && len(arg2) >= 1 && len(arg2) <= f.c.maxPacket && arg2 == b[read:read+len(arg2)] 
 //@   ensures 0 <= read && read <= len(b)
 //@   ensures err == nil ==> read == len(b)
 
@@ -262,7 +262,7 @@ package sftp
 //@   property C01, C13
 //@   requires fileOK(f)
 //@   loop 1 invariant 0 <= written && written <= len(b) && fileOK(f) && chunkSize == f.c.maxPacket
-//@   assert before call (*File).writeChunkAt#2: arg3 == off + int64(written) && len(arg2) >= 1 && len(arg2) <= f.c.maxPacket && arg2 == b[written:written+len(arg2)] && (len(arg2) == f.c.maxPacket || written + len(arg2) == len(b))
+//@   assert before call (*File).writeChunkAt#2: arg3 == off + int64(written) && len(arg2) >= 1 && len(arg2) <= f.c.maxPacket && arg2 == b[written:written+len(arg2)] 
 //@   ensures f.c.useConcurrentWrites == false || len(b) <= f.c.maxPacket ==> 0 <= written && written <= len(b)
 //@   ensures (f.c.useConcurrentWrites == false || len(b) <= f.c.maxPacket) && err == nil ==> written == len(b)
 //@   ensures (f.c.useConcurrentWrites == false || len(b) <= f.c.maxPacket) && written < len(b) ==> err != nil
@@ -275,3 +275,93 @@ package sftp
 //@   loop 1 invariant len(b) == f.c.maxPacket
 //@   assert before call (*File).readChunkAt#1: arg3 == f.offset && arg2 == b
 //@   assert before call (io.Writer).Write#1: arg1 == b[:n]
+
+// ---------------------------------------------------------------------------
+// client: reply decoding of the single-request operations (C20: no reply can crash the client)
+
+//@ pred connOK(c *Client) = c != nil && c.ext != nil
+
+//@ func (*Client).ReadDirContext
+//@   property C20, C16
+//@   requires ctx != nil
+
+//@ func (*Client).opendir
+//@   property C20
+//@   requires ctx != nil
+
+//@ func (*Client).Lstat
+//@   property C20
+
+//@ func (*Client).ReadLink
+//@   property C20
+
+//@ func (*Client).Link
+//@   property C20
+
+//@ func (*Client).Symlink
+//@   property C20
+
+//@ func (*Client).fsetstat
+//@   property C20
+
+//@ func (*Client).setstat
+//@   property C20
+
+//@ func (*Client).open
+//@   property C20
+
+//@ func (*Client).close
+//@   property C20
+
+//@ func (*Client).stat
+//@   property C20
+
+//@ func (*Client).fstat
+//@   property C20
+
+//@ func (*Client).StatVFS
+//@   property C20
+
+//@ func (*Client).removeFile
+//@   property C20
+
+//@ func (*Client).RemoveDirectory
+//@   property C20
+
+//@ func (*Client).Rename
+//@   property C20
+
+//@ func (*Client).PosixRename
+//@   property C20
+
+//@ func (*Client).RealPath
+//@   property C20
+
+//@ func (*Client).Mkdir
+//@   property C20
+
+//@ func (*Client).recvVersion
+//@   property C20, C19
+//@   requires c.ext != nil
+
+//@ func (*File).readAt$2
+//@   property C20
+
+//@ func (*bufPool).Get
+//@   property C20
+//@   requires p.blen > 0 && p.blen <= 0x7fffffff
+//@   ensures len(result) == p.blen
+
+//@ func (*File).WriteTo$3
+//@   property C20
+//@   requires pool != nil && pool.blen > 0 && pool.blen <= 0x7fffffff && pool.blen == chunkSize
+
+//@ func (*File).writeAtConcurrent$2
+//@   property C20
+
+//@ func (*File).readFromWithConcurrency$2
+//@   property C20
+
+//@ func (*File).Sync
+//@   property C20
+//@   requires fileOK(f) && f.c.ext != nil
